@@ -83,6 +83,8 @@ pub fn mains() -> Vec<(&'static str, &'static str)> {
         ("nested", "include \"c.inc\";\nint s = vc;\n"),
         ("bad_escape", "int pre = 1;\ninclude \"a\\q.inc\";\n"),
         ("no_path", "int pre = 1;\ninclude;\ninclude \"a.inc\";\n"),
+        ("annotated", "int pre = 1;\n@note one\n@second\ninclude \"a.inc\";\nint post = 2;\n"),
+        ("annotated_last", "int pre = 1;\n@note one\ninclude \"b.inc\";\n"),
     ]
 }
 
